@@ -5,6 +5,7 @@
 
 use frost_core as fc;
 use frost_core::keys::dkg;
+use frost_core::keys::refresh;
 use frost_core::keys::{KeyPackage, SecretShare};
 use serde_json::json;
 use zeroize::Zeroize;
@@ -36,6 +37,10 @@ fn renderings(secret: &[u8]) -> Vec<String> {
 fn no_leak(type_name: &str, rendered: &[String], secrets: &[(&str, Vec<u8>)]) -> Verdict {
     for text in rendered {
         for (what, s) in secrets {
+            // sparse scalars (the zero constant term of a refresh polynomial, small numbers) occur in public data by accident
+            if s.iter().filter(|b| **b != 0).count() < 8 {
+                continue;
+            }
             for needle in renderings(s) {
                 if text.contains(&needle) {
                     let mut shown = text.clone();
@@ -56,21 +61,33 @@ fn dbg2<T: std::fmt::Debug>(v: &T) -> Vec<String> {
     vec![format!("{v:?}"), format!("{v:#?}")]
 }
 
+/// Secret-bearing values of every type, each obtained from EVERY function that produces one (name of the producer, value).
 struct Secrets<C: Suite> {
-    sk: fc::SigningKey<C>,
-    secret_share: SecretShare<C>,
-    kp: KeyPackage<C>,
-    nonces: fc::round1::SigningNonces<C>,
-    r1: dkg::round1::SecretPackage<C>,
-    r2: dkg::round2::SecretPackage<C>,
-    r2_pkg: dkg::round2::Package<C>,
+    sks: Vec<(String, fc::SigningKey<C>)>,
+    secret_shares: Vec<(String, SecretShare<C>)>,
+    kps: Vec<(String, KeyPackage<C>)>,
+    nonces: Vec<(String, fc::round1::SigningNonces<C>)>,
+    r1s: Vec<(String, dkg::round1::SecretPackage<C>)>,
+    r2s: Vec<(String, dkg::round2::SecretPackage<C>)>,
+    r2_pkgs: Vec<(String, dkg::round2::Package<C>)>,
 }
 
+/// Small group (n in 2..=5, any t) with the case's identifiers; one participant's view.  Producers: `SigningKey::new` /
+/// `from_scalar` / `reconstruct`; dealer `generate_with_dealer`, `split`, `compute_refreshing_shares` (secret shares);
+/// key packages from the dealer, DKG part3, `refresh_share`, `refresh_dkg_shares`, `repair_share_part3`; nonces from
+/// `commit`, `preprocess(k >= 2)`, `from_nonces`; round-one secret packages from `dkg::part1`, `refresh_dkg_part1` and
+/// `SecretPackage::new`; round-two secret packages and packages from `dkg::part2` and `refresh_dkg_part2`.
 fn secrets<C: Suite>(rng: &mut TestRng, p: &Params) -> Result<Secrets<C>, Stop> {
-    let mut q = Params::generate_with(rng, 3, 2);
-    q.ids = p.ids.iter().take(3).cloned().collect();
-    if q.ids.len() < 3 {
-        q.ids = gen_ids(rng, "mixed", 3);
+    let n = rng.range(2, 5).min(p.ids.len().max(2)) as u16;
+    let t = match rng.below(3) {
+        0 => 2,
+        1 => n,
+        _ => rng.range(2, n as usize) as u16,
+    };
+    let mut q = Params::generate_with(rng, n, t);
+    q.ids = p.ids.iter().take(n as usize).cloned().collect();
+    if q.ids.len() < n as usize {
+        q.ids = gen_ids(rng, "mixed", n as usize);
     }
     q.id_scheme = "custom";
     let keys = keygen_dealer::<C>(rng, &q, false)?;
@@ -82,82 +99,248 @@ fn secrets<C: Suite>(rng: &mut TestRng, p: &Params) -> Result<Secrets<C>, Stop> 
         (Some(a), Some(b)) => (a.clone(), b.clone()),
         _ => return skip("internal"),
     };
-    let (nonces, _) = fc::round1::commit::<C, _>(kp.signing_share(), rng);
-    let run = dkg_rounds::<C>(rng, &keys.ids, 3, 2, false)?;
-    let (r1, r2, r2_pkg) = match (run.r1_secret.get(&id), run.r2_secret.get(&id), run.r2_out.get(&id).and_then(|m| m.values().next())) {
-        (Some(a), Some(b), Some(c)) => (a.clone(), b.clone(), c.clone()),
-        _ => return skip("internal"),
+    let mut out = Secrets {
+        sks: vec![("SigningKey::new".into(), fc::SigningKey::<C>::new(rng))],
+        secret_shares: vec![("generate_with_dealer".into(), secret_share)],
+        kps: vec![("the dealer's share".into(), kp.clone())],
+        nonces: Vec::new(),
+        r1s: Vec::new(),
+        r2s: Vec::new(),
+        r2_pkgs: Vec::new(),
     };
-    Ok(Secrets {
-        sk: fc::SigningKey::<C>::new(rng),
-        secret_share,
-        kp,
-        nonces,
-        r1,
-        r2,
-        r2_pkg,
-    })
+    // signing keys
+    if let Ok(k) = fc::SigningKey::<C>::from_scalar(random_nonzero_scalar::<C>(rng)) {
+        out.sks.push(("SigningKey::from_scalar".into(), k));
+    }
+    let all: Vec<KeyPackage<C>> = keys.key_packages.values().cloned().collect();
+    if let Ok(k) = frost_core::keys::reconstruct::<C>(&all) {
+        out.sks.push(("keys::reconstruct".into(), k));
+    }
+    // dealer shares of the other producers
+    let sk = fc::SigningKey::<C>::new(rng);
+    if let Ok((shares, _)) = frost_core::keys::split::<C, _>(&sk, n, t, frost_core::keys::IdentifierList::Custom(&keys.ids), rng) {
+        if let Some(sh) = shares.get(&id) {
+            out.secret_shares.push(("keys::split".into(), sh.clone()));
+        }
+    }
+    if let Ok((shares, _)) = refresh::compute_refreshing_shares::<C, _>(keys.pubkeys.clone(), &keys.ids, rng) {
+        if let Some(sh) = shares.iter().find(|s| *s.identifier() == id) {
+            out.secret_shares.push(("refresh::compute_refreshing_shares".into(), sh.clone()));
+            if let Ok(k) = refresh::refresh_share::<C>(sh.clone(), &kp) {
+                out.kps.push(("refresh::refresh_share".into(), k));
+            }
+        }
+    }
+    // nonces
+    let (nonces, _) = fc::round1::commit::<C, _>(kp.signing_share(), rng);
+    out.nonces.push(("round1::commit".into(), nonces.clone()));
+    let k = rng.range(2, 4) as u8;
+    let (batch, _) = fc::round1::preprocess::<C, _>(k, kp.signing_share(), rng);
+    for (i, x) in batch.into_iter().enumerate() {
+        out.nonces.push((format!("round1::preprocess({k}), pair {i}"), x));
+    }
+    out.nonces.push(("SigningNonces::from_nonces".into(), fc::round1::SigningNonces::<C>::from_nonces(*nonces.binding(), *nonces.hiding())));
+    // key generation
+    let run = dkg_rounds::<C>(rng, &keys.ids, n, t, false)?;
+    if let (Some(a), Some(b), Some(c)) = (run.r1_secret.get(&id), run.r2_secret.get(&id), run.r2_out.get(&id).and_then(|m| m.values().next())) {
+        out.r1s.push(("dkg::part1".into(), a.clone()));
+        out.r2s.push(("dkg::part2".into(), b.clone()));
+        out.r2_pkgs.push(("dkg::part2".into(), c.clone()));
+        // the public constructor for callers that store the package themselves
+        out.r1s.push(("dkg::round1::SecretPackage::new".into(), dkg::round1::SecretPackage::<C>::new(id, a.coefficients(), a.commitment().clone(), t, n)));
+    }
+    if let Ok(fin) = dkg_finish::<C>(&run, false) {
+        if let Some((k, _)) = fin.get(&id) {
+            out.kps.push(("dkg::part3".into(), k.clone()));
+        }
+    }
+    // distributed refresh (its round-one packages carry t coefficients and t-1 commitments)
+    let mut rs1 = std::collections::BTreeMap::new();
+    let mut rp1 = std::collections::BTreeMap::new();
+    for i in &keys.ids {
+        let (s, pk) = need(refresh::refresh_dkg_part1::<C, _>(*i, n, t, &mut *rng), "refresh_dkg_part1")?;
+        rs1.insert(*i, s);
+        rp1.insert(*i, pk);
+    }
+    let mut rs2 = std::collections::BTreeMap::new();
+    let mut rout: std::collections::BTreeMap<Id<C>, std::collections::BTreeMap<Id<C>, dkg::round2::Package<C>>> = std::collections::BTreeMap::new();
+    for i in &keys.ids {
+        let others: std::collections::BTreeMap<_, _> = rp1.iter().filter(|(k, _)| *k != i).map(|(k, v)| (*k, v.clone())).collect();
+        if let Some(s) = rs1.get(i) {
+            let (s2, o) = need(refresh::refresh_dkg_part2::<C>(s.clone(), &others), "refresh_dkg_part2")?;
+            rs2.insert(*i, s2);
+            rout.insert(*i, o);
+        }
+    }
+    if let (Some(a), Some(b), Some(c)) = (rs1.get(&id), rs2.get(&id), rout.get(&id).and_then(|m| m.values().next())) {
+        out.r1s.push(("refresh::refresh_dkg_part1".into(), a.clone()));
+        out.r2s.push(("refresh::refresh_dkg_part2".into(), b.clone()));
+        out.r2_pkgs.push(("refresh::refresh_dkg_part2".into(), c.clone()));
+        let r1: std::collections::BTreeMap<_, _> = rp1.iter().filter(|(k, _)| **k != id).map(|(k, v)| (*k, v.clone())).collect();
+        let mut r2 = std::collections::BTreeMap::new();
+        for (sender, o) in &rout {
+            if let Some(pk) = o.get(&id) {
+                r2.insert(*sender, pk.clone());
+            }
+        }
+        if let Ok((k, _)) = refresh::refresh_dkg_shares::<C>(b, &r1, &r2, keys.pubkeys.clone(), kp.clone()) {
+            out.kps.push(("refresh::refresh_dkg_shares".into(), k));
+        }
+    }
+    // repair (needs t helpers besides the participant)
+    let helpers: Vec<Id<C>> = keys.ids.iter().filter(|i| **i != id).copied().collect();
+    if helpers.len() >= t as usize {
+        if let Ok(sigmas) = crate::c11::repair_parts_1_2::<C>(rng, &helpers, &keys.key_packages, id, false, false) {
+            if let Ok(k) = frost_core::keys::repairable::repair_share_part3::<C>(&sigmas, id, &keys.pubkeys) {
+                out.kps.push(("repairable::repair_share_part3".into(), k));
+            }
+        }
+    }
+    Ok(out)
+}
+
+fn producers<T>(v: &[(String, T)]) -> Vec<String> {
+    v.iter().map(|x| x.0.clone()).collect()
+}
+
+fn note_producers<C: Suite>(s: &Secrets<C>, notes: &mut Notes) {
+    notes.insert(
+        "producers".into(),
+        json!({"SigningKey": producers(&s.sks), "SecretShare": producers(&s.secret_shares), "KeyPackage": producers(&s.kps), "SigningNonces": producers(&s.nonces),
+               "dkg::round1::SecretPackage": producers(&s.r1s), "dkg::round2::SecretPackage": producers(&s.r2s), "dkg::round2::Package": producers(&s.r2_pkgs)}),
+    );
 }
 
 pub fn scenario_debug_is_redacted<C: Suite>(rng: &mut TestRng, p: &Params, notes: &mut Notes) -> Verdict {
     let s = secrets::<C>(rng, p)?;
-    let _ = notes;
-    no_leak("SigningKey", &dbg2(&s.sk), &[("signing key", s.sk.serialize())])?;
-    no_leak("SigningShare", &dbg2(s.kp.signing_share()), &[("signing share", s.kp.signing_share().serialize())])?;
-    no_leak("SecretShare", &dbg2(&s.secret_share), &[("signing share", s.secret_share.signing_share().serialize())])?;
-    no_leak("KeyPackage", &dbg2(&s.kp), &[("signing share", s.kp.signing_share().serialize())])?;
-    no_leak(
-        "SigningNonces",
-        &dbg2(&s.nonces),
-        &[("hiding nonce", s.nonces.hiding().serialize()), ("binding nonce", s.nonces.binding().serialize())],
-    )?;
-    let coeffs: Vec<(&str, Vec<u8>)> = s.r1.coefficients().iter().map(|c| ("polynomial coefficient", scalar_bytes::<C>(c))).collect();
-    no_leak("dkg::round1::SecretPackage", &dbg2(&s.r1), &coeffs)?;
-    no_leak("dkg::round2::SecretPackage", &dbg2(&s.r2), &[("secret share", scalar_bytes::<C>(&s.r2.secret_share()))])?;
-    no_leak("dkg::round2::Package", &dbg2(&s.r2_pkg), &[("signing share", s.r2_pkg.signing_share().serialize())])?;
+    note_producers(&s, notes);
+    for (from, sk) in &s.sks {
+        no_leak(&format!("SigningKey (from {from})"), &dbg2(sk), &[("signing key", sk.serialize())])?;
+    }
+    for (from, sh) in &s.secret_shares {
+        no_leak(&format!("SecretShare (from {from})"), &dbg2(sh), &[("signing share", sh.signing_share().serialize())])?;
+    }
+    for (from, kp) in &s.kps {
+        no_leak(&format!("SigningShare (of the key package from {from})"), &dbg2(kp.signing_share()), &[("signing share", kp.signing_share().serialize())])?;
+        no_leak(&format!("KeyPackage (from {from})"), &dbg2(kp), &[("signing share", kp.signing_share().serialize())])?;
+    }
+    for (from, n) in &s.nonces {
+        no_leak(
+            &format!("SigningNonces (from {from})"),
+            &dbg2(n),
+            &[("hiding nonce", n.hiding().serialize()), ("binding nonce", n.binding().serialize())],
+        )?;
+    }
+    for (from, r1) in &s.r1s {
+        let coeffs: Vec<(&str, Vec<u8>)> = r1.coefficients().iter().map(|c| ("polynomial coefficient", scalar_bytes::<C>(c))).collect();
+        no_leak(&format!("dkg::round1::SecretPackage (from {from})"), &dbg2(r1), &coeffs)?;
+    }
+    for (from, r2) in &s.r2s {
+        no_leak(&format!("dkg::round2::SecretPackage (from {from})"), &dbg2(r2), &[("secret share", scalar_bytes::<C>(&r2.secret_share()))])?;
+    }
+    for (from, pk) in &s.r2_pkgs {
+        no_leak(&format!("dkg::round2::Package (from {from})"), &dbg2(pk), &[("signing share", pk.signing_share().serialize())])?;
+    }
     // containers of secret types
-    let v = vec![s.kp.clone(), s.kp.clone()];
-    no_leak("Vec<KeyPackage>", &dbg2(&v), &[("signing share", s.kp.signing_share().serialize())])?;
-    let o = Some(s.nonces.clone());
-    no_leak(
-        "Option<SigningNonces>",
-        &dbg2(&o),
-        &[("hiding nonce", s.nonces.hiding().serialize()), ("binding nonce", s.nonces.binding().serialize())],
-    )
+    if let (Some((_, kp)), Some((_, n))) = (s.kps.first(), s.nonces.first()) {
+        let v = vec![kp.clone(), kp.clone()];
+        no_leak("Vec<KeyPackage>", &dbg2(&v), &[("signing share", kp.signing_share().serialize())])?;
+        let o = Some(n.clone());
+        no_leak(
+            "Option<SigningNonces>",
+            &dbg2(&o),
+            &[("hiding nonce", n.hiding().serialize()), ("binding nonce", n.binding().serialize())],
+        )?;
+    }
+    Ok(())
+}
+
+/// no encoding of a secret the value held BEFORE zeroize() is readable from it afterwards through its serializations
+fn gone<C: Suite>(what: &str, before: &[Vec<u8>], views: &[Option<Vec<u8>>]) -> Verdict {
+    for view in views.iter().flatten() {
+        for (i, sec) in before.iter().enumerate() {
+            // sparse encodings (0, 1, 2^k) occur by accident
+            if sec.iter().filter(|b| **b != 0).count() < 8 {
+                continue;
+            }
+            let hx = hex(sec);
+            let found = view.windows(sec.len()).any(|w| w == sec.as_slice()) || view.windows(hx.len()).any(|w| w == hx.as_bytes());
+            if found {
+                return fail(
+                    &format!("after zeroize() no secret scalar of the {what} can be read back from its serialization"),
+                    "wiped",
+                    format!("secret scalar {i} of the value is still in its serialized form"),
+                );
+            }
+        }
+    }
+    Ok(())
 }
 
 pub fn scenario_zeroize_leaves_zero<C: Suite>(rng: &mut TestRng, p: &Params, notes: &mut Notes) -> Verdict {
-    let mut s = secrets::<C>(rng, p)?;
-    let _ = notes;
+    let s = secrets::<C>(rng, p)?;
+    note_producers(&s, notes);
     let z = scalar_bytes::<C>(&zero::<C>());
     let is_zero = |b: Vec<u8>, what: &str| check(b == z, &format!("after zeroize() the {what} is zero"), hex(&z), hex(&b));
+    let json_of = |v: Result<String, serde_json::Error>| v.ok().map(|t| t.into_bytes());
 
-    let mut share = *s.kp.signing_share();
-    share.zeroize();
-    is_zero(share.serialize(), "SigningShare")?;
-
-    s.secret_share.zeroize();
-    is_zero(s.secret_share.signing_share().serialize(), "signing share of SecretShare")?;
-
-    s.kp.zeroize();
-    is_zero(s.kp.signing_share().serialize(), "signing share of KeyPackage")?;
-
-    s.nonces.zeroize();
-    is_zero(s.nonces.hiding().serialize(), "hiding nonce of SigningNonces")?;
-    is_zero(s.nonces.binding().serialize(), "binding nonce of SigningNonces")?;
-
-    let mut nonce = fc::round1::Nonce::<C>::new(&share, rng);
-    nonce.zeroize();
-    is_zero(nonce.serialize(), "Nonce")?;
-
-    s.r1.zeroize();
-    for c in s.r1.coefficients() {
-        is_zero(scalar_bytes::<C>(&c), "polynomial coefficient of dkg::round1::SecretPackage")?;
+    for (from, sh) in &s.secret_shares {
+        let mut x = sh.clone();
+        let before = vec![x.signing_share().serialize()];
+        x.zeroize();
+        is_zero(x.signing_share().serialize(), &format!("signing share of SecretShare (from {from})"))?;
+        gone::<C>(&format!("SecretShare (from {from})"), &before, &[x.serialize().ok(), json_of(serde_json::to_string(&x))])?;
     }
-    s.r2.zeroize();
-    is_zero(scalar_bytes::<C>(&s.r2.secret_share()), "secret share of dkg::round2::SecretPackage")?;
-    s.r2_pkg.zeroize();
-    is_zero(s.r2_pkg.signing_share().serialize(), "signing share of dkg::round2::Package")
+    for (from, kp) in &s.kps {
+        let mut share = *kp.signing_share();
+        share.zeroize();
+        is_zero(share.serialize(), &format!("SigningShare (of the key package from {from})"))?;
+        let mut x = kp.clone();
+        let before = vec![x.signing_share().serialize()];
+        x.zeroize();
+        is_zero(x.signing_share().serialize(), &format!("signing share of KeyPackage (from {from})"))?;
+        gone::<C>(&format!("KeyPackage (from {from})"), &before, &[x.serialize().ok(), json_of(serde_json::to_string(&x))])?;
+    }
+    for (from, n) in &s.nonces {
+        let mut x = n.clone();
+        let before = vec![x.hiding().serialize(), x.binding().serialize()];
+        x.zeroize();
+        is_zero(x.hiding().serialize(), &format!("hiding nonce of SigningNonces (from {from})"))?;
+        is_zero(x.binding().serialize(), &format!("binding nonce of SigningNonces (from {from})"))?;
+        gone::<C>(&format!("SigningNonces (from {from})"), &before, &[x.serialize().ok(), json_of(serde_json::to_string(&x))])?;
+        let mut nonce = *n.hiding();
+        nonce.zeroize();
+        is_zero(nonce.serialize(), &format!("round1::Nonce (from {from})"))?;
+    }
+    if let Some((_, kp)) = s.kps.first() {
+        let mut nonce = fc::round1::Nonce::<C>::new(kp.signing_share(), rng);
+        nonce.zeroize();
+        is_zero(nonce.serialize(), "Nonce")?;
+    }
+    for (from, r1) in &s.r1s {
+        let mut x = r1.clone();
+        let before: Vec<Vec<u8>> = x.coefficients().iter().map(scalar_bytes::<C>).collect();
+        x.zeroize();
+        for (i, c) in x.coefficients().iter().enumerate() {
+            is_zero(scalar_bytes::<C>(c), &format!("polynomial coefficient {i} (of {}) of dkg::round1::SecretPackage (from {from})", before.len()))?;
+        }
+        gone::<C>(&format!("dkg::round1::SecretPackage (from {from})"), &before, &[x.serialize().ok(), json_of(serde_json::to_string(&x))])?;
+    }
+    for (from, r2) in &s.r2s {
+        let mut x = r2.clone();
+        let before = vec![scalar_bytes::<C>(&x.secret_share())];
+        x.zeroize();
+        is_zero(scalar_bytes::<C>(&x.secret_share()), &format!("secret share of dkg::round2::SecretPackage (from {from})"))?;
+        gone::<C>(&format!("dkg::round2::SecretPackage (from {from})"), &before, &[x.serialize().ok(), json_of(serde_json::to_string(&x))])?;
+    }
+    for (from, pk) in &s.r2_pkgs {
+        let mut x = pk.clone();
+        let before = vec![x.signing_share().serialize()];
+        x.zeroize();
+        is_zero(x.signing_share().serialize(), &format!("signing share of dkg::round2::Package (from {from})"))?;
+        gone::<C>(&format!("dkg::round2::Package (from {from})"), &before, &[x.serialize().ok(), json_of(serde_json::to_string(&x))])?;
+    }
+    Ok(())
 }
 
 // ------------------------------------------------------------------------------------------------
@@ -215,31 +398,49 @@ fn drop_check<T>(name: &str, value: T, patterns: &[Vec<u8>]) -> Verdict {
 
 pub fn scenario_drop_wipes_storage<C: Suite>(rng: &mut TestRng, p: &Params, notes: &mut Notes) -> Verdict {
     let s = secrets::<C>(rng, p)?;
-    let _ = notes;
-    let share_raw = raw_scalar::<C>(&share_scalar::<C>(s.kp.signing_share())?);
-    let sk_raw = raw_scalar::<C>(&s.sk.clone().to_scalar());
-    let hid = scalar_from_bytes::<C>(&s.nonces.hiding().serialize()).map(|x| raw_scalar::<C>(&x)).unwrap_or_default();
-    let bin = scalar_from_bytes::<C>(&s.nonces.binding().serialize()).map(|x| raw_scalar::<C>(&x)).unwrap_or_default();
-    let r2_raw = raw_scalar::<C>(&s.r2.secret_share());
-    let r2p_raw = raw_scalar::<C>(&share_scalar::<C>(s.r2_pkg.signing_share())?);
-    let ss_raw = raw_scalar::<C>(&share_scalar::<C>(s.secret_share.signing_share())?);
-    let coeffs: Vec<Sc<C>> = s.r1.coefficients();
-    let coeff_raw: Vec<Vec<u8>> = coeffs.iter().map(raw_scalar::<C>).filter(|p| interesting(p)).collect();
-
-    drop_check("SigningKey", s.sk, &[sk_raw])?;
-    drop_check("KeyPackage", s.kp, &[share_raw])?;
-    drop_check("SecretShare", s.secret_share, &[ss_raw])?;
-    drop_check("SigningNonces", s.nonces, &[hid, bin])?;
-    drop_check("dkg::round2::SecretPackage", s.r2, &[r2_raw])?;
-    drop_check("dkg::round2::Package", s.r2_pkg, &[r2p_raw])?;
+    note_producers(&s, notes);
+    let raw_of = |b: &[u8]| scalar_from_bytes::<C>(b).map(|x| raw_scalar::<C>(&x)).unwrap_or_default();
+    for (from, sk) in s.sks {
+        let raw = raw_scalar::<C>(&sk.clone().to_scalar());
+        drop_check(&format!("SigningKey (from {from})"), sk, &[raw])?;
+    }
+    for (from, kp) in s.kps {
+        let raw = raw_scalar::<C>(&share_scalar::<C>(kp.signing_share())?);
+        drop_check(&format!("KeyPackage (from {from})"), kp, &[raw])?;
+    }
+    for (from, sh) in s.secret_shares {
+        let raw = raw_scalar::<C>(&share_scalar::<C>(sh.signing_share())?);
+        drop_check(&format!("SecretShare (from {from})"), sh, &[raw])?;
+    }
+    for (from, n) in s.nonces {
+        let (hid, bin) = (raw_of(&n.hiding().serialize()), raw_of(&n.binding().serialize()));
+        drop_check(&format!("SigningNonces (from {from})"), n, &[hid, bin])?;
+    }
+    for (from, r2) in s.r2s {
+        let raw = raw_scalar::<C>(&r2.secret_share());
+        drop_check(&format!("dkg::round2::SecretPackage (from {from})"), r2, &[raw])?;
+    }
+    for (from, pk) in s.r2_pkgs {
+        let raw = raw_scalar::<C>(&share_scalar::<C>(pk.signing_share())?);
+        drop_check(&format!("dkg::round2::Package (from {from})"), pk, &[raw])?;
+    }
     // dkg::round1::SecretPackage keeps its coefficients in a heap buffer: watch what is handed back to the allocator
-    crate::alloc_watch::start(&coeff_raw);
-    drop(s.r1);
-    let (hits, freed) = crate::alloc_watch::stop();
-    check(
-        hits == 0,
-        "dropping a dkg::round1::SecretPackage wipes the heap buffer of its polynomial coefficients before freeing it",
-        "no coefficient in any freed block",
-        format!("{hits} coefficient(s) found in freed memory ({freed} bytes freed)"),
-    )
+    for (from, r1) in s.r1s {
+        let coeffs: Vec<Sc<C>> = r1.coefficients();
+        let coeff_raw: Vec<Vec<u8>> = coeffs.iter().map(raw_scalar::<C>).filter(|p| interesting(p)).collect();
+        crate::alloc_watch::start(&coeff_raw);
+        drop(r1);
+        let (hits, freed) = crate::alloc_watch::stop();
+        check(
+            hits == 0,
+            &if from == "dkg::part1" {
+                "dropping a dkg::round1::SecretPackage wipes the heap buffer of its polynomial coefficients before freeing it".to_string()
+            } else {
+                format!("dropping a dkg::round1::SecretPackage (from {from}) wipes the heap buffer of its polynomial coefficients before freeing it")
+            },
+            "no coefficient in any freed block",
+            format!("{hits} coefficient(s) found in freed memory ({freed} bytes freed)"),
+        )?;
+    }
+    Ok(())
 }
